@@ -53,17 +53,20 @@ class ConcreteWorld(object):
 # ---- table construction -----------------------------------------------------------------------
 
 def build_table(c, side, nrows, k, kmin=0, missing='sym', bag=False, nonempty='sym',
-                col_order=None, key_base=None, index=None, extra=('x', 'y')):
+                col_order=None, key_base=None, index=None, extra=('x', 'y'), key_name='id',
+                extra_none=False):
     """side 'L'/'R'.  Columns: key `id`, join attribute `attr`, extras.  Returns SymTable."""
     key_base = key_base if key_base is not None else (1 if side == 'L' else 11)
-    cols = ['id', 'attr'] + list(extra)
-    order = list(col_order) if col_order else cols
+    cols = [key_name, 'attr'] + list(extra)
+    order = [key_name if x == 'id' else x for x in col_order] if col_order else cols
     rows = []
     for i in range(nrows):
-        vals = {'id': key_base + i,
+        vals = {key_name: key_base + i,
                 'attr': symdata.Cell(c, '%s%d' % (side, i), k, kmin, missing, bag, nonempty)}
-        for e in extra:
+        for j, e in enumerate(extra):
             vals[e] = '%s%d.%s' % (side, i, e)
+            if extra_none and i == 0 and j == 0:
+                vals[e] = None          # a missing value in an output attribute (not the join attribute)
         rows.append(tuple(vals[col] for col in order))
     idx = index if index is not None else list(range(nrows))
     return symdata.SymTable(side, order, rows, idx)
@@ -139,7 +142,7 @@ def real_frames(cs):
         data = {}
         for j, col in enumerate(t['columns']):
             vals = [r[j] for r in t['rows']]
-            if col == 'id':
+            if col in ('id', cs.get('l_key'), cs.get('r_key')) and col != 'attr':
                 data[col] = pd.Series(vals, index=t['index'], dtype='int64' if all(
                     isinstance(v, int) for v in vals) else object)
             else:
